@@ -237,6 +237,77 @@ func runHTTP(parallel, batch, ctxSize int, cache string, seqs []seqCase) *obs {
 	return o
 }
 
+
+// runSlow: one sequence, reader that does not read Sequence.responses until the producer blocks on the full channel
+// (100 buffered) and after the end; a blocked flush must wait for the reader, it must not drop text.
+func runSlow(parallel, batch, ctxSize int, cache string, seqs []seqCase) *obs {
+	m := build(cache, seqs)
+	o := &obs{}
+	srv, err := ollamarunner.C14NewServer(m, parallel, batch, ctxSize*parallel)
+	if err != nil {
+		o.Err = err.Error()
+		return o
+	}
+	sc := seqs[0]
+	so := &seqObs{Submit: "slow", Outs: []string{}, Events: []event{}}
+	o.Seqs = append(o.Seqs, so)
+	q, kind, err := srv.C14Submit("0", sc.limit, int32(sc.keep), sc.stops)
+	if kind != "" {
+		so.Submit = kind
+		if err != nil {
+			so.Submit += ": " + err.Error()
+		}
+		return o
+	}
+	ch := q.C14Responses()
+	total := 8 + sc.prompt + len(sc.toks)
+	for o.Steps = 0; o.Steps < 20*total+50; o.Steps++ {
+		if srv.C14Idle() {
+			break
+		}
+		done := make(chan error, 1)
+		go func() { done <- srv.C14Step() }()
+		var serr error
+		select {
+		case serr = <-done:
+		case <-time.After(40 * time.Millisecond):
+			so.Status++ // number of times the producer was found blocked
+			rd := ch
+			for fin := false; !fin; {
+				select {
+				case serr = <-done:
+					fin = true
+				case r, ok := <-rd:
+					if !ok {
+						so.Closed = true
+						rd = nil
+					} else {
+						so.Outs = append(so.Outs, hx.Hex(r))
+					}
+				}
+			}
+		}
+		if serr != nil {
+			if errors.Is(serr, errExhausted) {
+				o.Exhausted = true
+			} else {
+				o.Err = serr.Error()
+			}
+			break
+		}
+	}
+	if !so.Closed {
+		emit, closed := q.C14Drain()
+		so.Outs = append(so.Outs, hx.HexList(emit)...)
+		so.Closed = closed
+	}
+	so.Npred = q.C14Predicted()
+	if so.Closed {
+		so.Reason = q.C14DoneReason()
+	}
+	return o
+}
+
 func main() {
 	hx.Loop(func(c map[string]any) any {
 		mode, parallel, batch, ctxSize, cache, seqs := parse(c)
@@ -245,6 +316,9 @@ func main() {
 			done <- hx.Guard(func() any {
 				if mode == "http" {
 					return runHTTP(parallel, batch, ctxSize, cache, seqs)
+				}
+				if mode == "slow" {
+					return runSlow(parallel, batch, ctxSize, cache, seqs)
 				}
 				return runStep(parallel, batch, ctxSize, cache, seqs)
 			})
